@@ -209,6 +209,10 @@ def enclosing_lock_with(repo: Repo, fi: FuncInfo, node: ast.AST, lockid: str) ->
             break
         if isinstance(a, ast.With) and any(lock_identity(repo, fi, it.context_expr) == lockid for it in a.items):
             return a
+        if isinstance(a, ast.Try) and a.finalbody and _acquired_before(repo, fi, a, lockid) and any(
+                callee_attr(c) == "release" and isinstance(c.func, ast.Attribute) and lock_identity(repo, fi, c.func.value) == lockid
+                for st in a.finalbody for c in calls_under(st)):
+            return a
     return None
 
 
@@ -220,6 +224,13 @@ def lock_regions(repo: Repo, fi: FuncInfo) -> list[tuple[str, ast.AST]]:
                 lid = lock_identity(repo, fi, it.context_expr)
                 if lid:
                     out.append((lid, n))
+        if isinstance(n, ast.Try) and n.finalbody:
+            for st in n.finalbody:
+                for c in calls_under(st):
+                    if callee_attr(c) == "release" and isinstance(c.func, ast.Attribute):
+                        lid = lock_identity(repo, fi, c.func.value)
+                        if lid and _acquired_before(repo, fi, n, lid):
+                            out.append((lid, n))
     return out
 
 
